@@ -85,6 +85,7 @@ def library_text(samples, fw, layout, opts):
                             str_registry=_library_registry(opts) if opts.get("default_registry") else None,
                             datetime=opts.get("datetime", False))
     kw = {"post_init_converters": opts.get("converters", False), "convert_unicode": True, "max_literals": opts.get("max_literals", 10)}
+    kw.update(opts.get("gen_kwargs", {}))
     return render(reg, fw, layout, preamble=opts.get("preamble"), **kw)
 
 
@@ -189,6 +190,12 @@ def oracle_c16(case):
         elif optname == "preamble":
             argv += ["--preamble", "  X = 1  "]
             opts["preamble"] = "X = 1"
+        elif optname.startswith("kwargs:"):
+            # NAME=VALUE or "NAME=VALUE" (the quoted spelling of the help text reaching argv unstripped: no shell, nested quoting);
+            # the generator gets the text of VALUE
+            items = optname[7:].split(" ; ")
+            argv += ["--code-generator-kwargs"] + items
+            opts["gen_kwargs"] = {k_: {"true": True, "false": False}[v_] for k_, v_ in (i_.strip('"').split("=", 1) for i_ in items)}
         argv += ["-f", fw, "-s", layout]
         opts["default_registry"] = True
         out, exc, printed = run_cli(argv)
@@ -225,8 +232,10 @@ def c16(tier, seed):
             "merge:number_2", "merge:number_1 exact", "merge:number_4 percent", "merge:percent_95 number", "disable:BooleanString", "disable:int FloatString"]
     fws = ["base", "pydantic", "attrs", "dataclasses"] if tier == "thorough" else ["pydantic", "dataclasses"]
     cases = [(s, fw, lay, o) for s in splits for fw in fws for lay in ("flat", "nested") for o in opts]
+    cases += [("two_models", fw, "flat", o) for fw in ("attrs", "dataclasses")
+              for o in ("kwargs:meta=true", 'kwargs:"meta=true"', 'kwargs:"meta=false"', "kwargs:meta=false")]
     r = run_cases(cases, oracle_c16, "c16")
-    r["bound"] = f"8 ways of splitting 4 documents over files / lookups / -m / -l / a one-file pattern / literal names containing [ ] / paginated files with an empty page / a YAML file with 1.1-only plain scalars / one file read through two lookups x {len(fws)} frameworks x 2 layouts x 20 option sets (incl. merge thresholds around the overlaps present); stdout and -o both compared with the library pipeline"
+    r["bound"] = f"8 ways of splitting 4 documents over files / lookups / -m / -l / a one-file pattern / literal names containing [ ] / paginated files with an empty page / a YAML file with 1.1-only plain scalars / one file read through two lookups x {len(fws)} frameworks x 2 layouts x 20 option sets (incl. merge thresholds around the overlaps present), plus 4 --code-generator-kwargs spellings (JS-style booleans, bare and quoted items) x 2 frameworks; stdout and -o both compared with the library pipeline"
     r["function"] = "Cli.parse_args + Cli.run (in-process)"
     return r
 
